@@ -66,7 +66,10 @@ var fieldTypes = []string{"int", "string", "bool", "float64", "uint8", "int64", 
 	// a package whose name (meta) differs from its directory (kinds)
 	"meta.Kind", "[]meta.Spec", "*meta.Spec", "map[string]meta.Kind",
 	// two foreign types with the same NAME from different packages, also inside one type literal
-	"meta.Thing", "*meta.Thing", "struct{ A other.Thing; B meta.Thing }", "map[other.Key]meta.Thing", "other.Thing"}
+	"meta.Thing", "*meta.Thing", "struct{ A other.Thing; B meta.Thing }", "map[other.Key]meta.Thing", "other.Thing",
+	// packages whose directory name is a Go keyword (ptypes/struct, api/type, x/go) or starts with a digit (3rd): the
+	// import needs a local name that is none of these (seeded change C18-l)
+	"structpb.Value", "*structpb.Value", "map[string]structpb.Value", "[]typepb.Code", "typepb.Code", "gopkg.Mod", "third.Party", "struct{ V structpb.Value; C typepb.Code }"}
 
 var tagPool = []string{"", `json:"name"`, `json:"name,omitempty" description:"The name. Must be unique."`, `validate:"@string[1,10]"`, `x:"100%"`, `k:"a:b c" j:"d.e.f"`, `weird tag without key`, `yaml:"a.b" json:"-"`, `doc:"it's \"quoted\""`, `path:"example.com/x.Y"`}
 
@@ -133,8 +136,12 @@ import (
 	"io"
 	"time"
 
+	third "example.com/c18/3rd"
+	typepb "example.com/c18/api/type"
 	meta "example.com/c18/kinds"
 	"example.com/c18/other"
+	structpb "example.com/c18/ptypes/struct"
+	gopkg "example.com/c18/x/go"
 )
 
 var (
@@ -143,6 +150,10 @@ var (
 	_ time.Duration
 	_ other.Thing
 	_ meta.Kind
+	_ third.Party
+	_ typepb.Code
+	_ structpb.Value
+	_ gopkg.Mod
 )
 
 type Inner struct {
@@ -153,6 +164,20 @@ type Inner struct {
 type Label string
 
 `
+
+// packages in directories named like Go keywords / starting with a digit
+var oddDirs = map[string]string{
+	"ptypes/struct/struct.go": "package structpb\n\ntype Value struct {\n\tS string\n\tL []int\n}\n",
+	"api/type/type.go":        "package typepb\n\ntype Code int\n",
+	"x/go/go.go":              "package gopkg\n\ntype Mod struct {\n\tPath string\n}\n",
+	"3rd/third.go":            "package third\n\ntype Party struct {\n\tN int\n}\n",
+}
+
+func writeOddDirs(m *fixture.Module) {
+	for f, src := range oddDirs {
+		m.MustWrite(f, src)
+	}
+}
 
 // kindsSrc lives in directory kinds/ but declares package meta.
 const kindsSrc = `package meta
@@ -513,6 +538,7 @@ func (p *prop) runBatch(c core.Case, w *core.Worker, res *core.Result, r *rand.R
 	defer m.Remove()
 	m.MustWrite("other/other.go", otherSrc)
 	m.MustWrite("kinds/kinds.go", kindsSrc)
+	writeOddDirs(m)
 	m.MustWrite("repl/repl.go", replSrc)
 	var osrc strings.Builder
 	osrc.WriteString(originHeader)
@@ -781,6 +807,7 @@ func (p *prop) runNegatives(c core.Case, w *core.Worker, res *core.Result) {
 		}
 		m.MustWrite("other/other.go", otherSrc)
 		m.MustWrite("kinds/kinds.go", kindsSrc)
+		writeOddDirs(m)
 		m.MustWrite("origin/origin.go", originHeader+"type O1 struct {\n\tA int\n\tB string\n}\n\ntype Level int\n\ntype Index map[string]O1\n")
 		src := "package neg\n\n"
 		if strings.Contains(ng.src, "origin.") {
